@@ -27,8 +27,8 @@ pub fn tid() -> u64 {
     })
 }
 
-static TRACE: OnceLock<Arc<Trace>> = OnceLock::new();
-fn tr() -> &'static Arc<Trace> {
+pub static TRACE: OnceLock<Arc<Trace>> = OnceLock::new();
+pub fn tr() -> &'static Arc<Trace> {
     TRACE.get().expect("trace not initialised")
 }
 
@@ -437,9 +437,9 @@ pub fn stress(a: &Args) {
 // ------------------------------------------------------------------ direction A: scheduled replay
 use serde_json::Value;
 
-const STEP_TIMEOUT: Duration = Duration::from_secs(5);
+pub const STEP_TIMEOUT: Duration = Duration::from_secs(3);
 
-fn sched_enable(on: bool) {
+pub fn sched_enable(on: bool) {
     let s = sched();
     let mut g = s.st.lock().unwrap();
     g.enabled = on;
@@ -451,7 +451,7 @@ fn sched_enable(on: bool) {
 }
 
 /// let thread `t` leave its park point
-fn go(t: u64) {
+pub fn go(t: u64) {
     let s = sched();
     let mut g = s.st.lock().unwrap();
     g.go.insert(t, true);
@@ -459,7 +459,7 @@ fn go(t: u64) {
 }
 
 /// wait until `pred` holds on the scheduler state
-fn wait_sched<T>(limit: Duration, mut pred: impl FnMut(&SchedState) -> Option<T>) -> Option<T> {
+pub fn wait_sched<T>(limit: Duration, mut pred: impl FnMut(&SchedState) -> Option<T>) -> Option<T> {
     let s = sched();
     let t0 = Instant::now();
     let mut g = s.st.lock().unwrap();
@@ -474,7 +474,7 @@ fn wait_sched<T>(limit: Duration, mut pred: impl FnMut(&SchedState) -> Option<T>
 }
 
 /// release `t` and wait until it parks at one of `sites` (other sites it passes are released too)
-fn step_to(t: u64, sites: &[&str]) -> Result<(String, u64, u64), String> {
+pub fn step_to(t: u64, sites: &[&str]) -> Result<(String, u64, u64), String> {
     go(t);
     let t0 = Instant::now();
     loop {
@@ -518,10 +518,15 @@ pub fn replay(a: &Args) {
     let mut nbeh = 0u64;
     let mut nsteps = 0u64;
     let mut ndiv = 0u64;
+    let mut skipped = 0u64;
     let mut divs: Vec<Value> = vec![];
     let mut sample: Option<Value> = None;
     for line in input.lines() {
         if line.trim().is_empty() {
+            continue;
+        }
+        if ndiv >= 3 {
+            skipped += 1;
             continue;
         }
         let b: Value = serde_json::from_str(line).expect("behaviour");
@@ -812,5 +817,5 @@ pub fn replay(a: &Args) {
     cadence::verif::install(None);
     tr().finish();
     summary(json!({"engine":"queue-replay","behaviours":nbeh,"steps":nsteps,"events":tr().count(),
-        "model_divergences":ndiv,"first_divergences":divs,"sample":sample}));
+        "model_divergences":ndiv,"skipped_after_divergences":skipped,"first_divergences":divs,"sample":sample}));
 }
